@@ -1458,6 +1458,29 @@ fn crashme(kind: &str) {
                 black_box(&m);
             }
         }
+        "from-rows-short" => {
+            // Observation O1 (notes/footprint.md): from_rows trusts ExactSizeIterator::len(); an iterator that
+            // yields fewer rows leaves the others as the allocator handed them out (under ASan: its 0xbe fill)
+            struct Short(usize);
+            impl Iterator for Short {
+                type Item = Vec<u32>;
+                fn next(&mut self) -> Option<Vec<u32>> {
+                    if self.0 == 0 {
+                        self.0 = 1;
+                        Some(vec![7; 5])
+                    } else {
+                        None
+                    }
+                }
+                fn size_hint(&self) -> (usize, Option<usize>) {
+                    (4, Some(4))
+                }
+            }
+            impl ExactSizeIterator for Short {}
+            let m = DenseMatrix::<u32, U5>::from_rows(Short(0));
+            println!("rows={} row0={:?} row1={:x?} row3={:x?}", m.rows(), &m[0], &m[1], &m[3]);
+            return;
+        }
         "gather-oob" => {
             // `_mm256_i32gather_ps` one element past a 2-row f32 matrix (exact allocation): gathers are target
             // intrinsics the sanitizer does not instrument; the guard page of the plain build sees them
